@@ -29,12 +29,17 @@ Record case := { c_tree : tree; c_maxr : nat; c_gates : list nat; c_steps : list
 
 (** ** Replaying the scenario *)
 
-(* A restart is not an event of the children-map machine: the process keeps its
+(* [c_tree] is the tree at the END of the scenario: the scripted nodes and, where
+   the scenario spawns them, the children spawned on demand ([SSpawn p c]: c is a
+   leaf-or-inner node of [c_tree] whose parent is p).  A node spawned on demand
+   exists from its spawn step on ([m_born]).
+
+   A restart is not an event of the children-map machine: the process keeps its
    Context, and with it the children map and parentCtx, across incarnations
    (process.Start only replaces the receiver).  So [SRestart] leaves [m_book]
    alone; see [hrun_restart] in TreeProofs.v. *)
 Record mstate := {
-  m_tree : tree;                     (* the tree so far: the scripted one plus the children spawned on demand *)
+  m_born : list nat;                 (* the actors that exist so far *)
   m_handles : list (nat * nat);      (* kind, target; in creation order *)
   m_stopping : list nat;             (* actors inside a subtree that was told to stop *)
   m_stopped : list nat;              (* actors known to have finished stopping (an await returned) *)
@@ -56,34 +61,27 @@ Definition blocked (t : tree) (closed : list nat) (n : nat) : bool :=
 Definition add_all (l acc : list nat) : list nat :=
   fold_left (fun a x => if memb x a then a else a ++ [x]) l acc.
 
-(* a new leaf c under p *)
-Fixpoint add_kid (p c : nat) (t : tree) : tree :=
-  match t with
-  | Node i ks => Node i (map (add_kid p c) ks ++ (if Nat.eqb i p then [Node c []] else []))
-  end.
+(* the X order of the stop of p's subtree *)
+Definition post (t : tree) (p : nat) : list nat :=
+  match find_sub t p with Some s => xs_of (stop_tree s) | None => [] end.
 
 (* the actors of [p]'s subtree that have not been recorded as stopped yet, in stop order *)
 Definition newly_stopped (t : tree) (stopped : list nat) (p : nat) : list bop :=
-  match find_sub t p with
-  | None => []
-  | Some s => filter (fun o => match o with BStopped c => negb (memb c stopped) | _ => true end)
-                     (stopped_ops (stop_tree s))
-  end.
+  map BStopped (filter (fun c => negb (memb c stopped)) (post t p)).
 
 Definition upd_m (m : mstate) (handles : list (nat * nat)) (stopping stopped : list nat)
     (at_return : list (option bool)) (tags : list nat) : mstate :=
-  {| m_tree := m_tree m; m_handles := handles; m_stopping := stopping; m_stopped := stopped;
+  {| m_born := m_born m; m_handles := handles; m_stopping := stopping; m_stopped := stopped;
      m_closed := m_closed m; m_book := m_book m; m_spawned := m_spawned m; m_at_return := at_return;
      m_probes := m_probes m; m_spec_probes := m_spec_probes m; m_restarted := m_restarted m;
      m_tags := m_tags m ++ tags |}.
 
-Definition do_await (m : mstate) (k : nat) : mstate :=
-  let t := m_tree m in
+Definition do_await (t : tree) (m : mstate) (k : nat) : mstate :=
   match nth_error (m_handles m) k with
   | None => m
   | Some (_, p) =>
-    {| m_tree := t; m_handles := m_handles m; m_stopping := m_stopping m;
-       m_stopped := add_all (closure t p) (m_stopped m);
+    {| m_born := m_born m; m_handles := m_handles m; m_stopping := m_stopping m;
+       m_stopped := add_all (post t p) (m_stopped m);
        m_closed := m_closed m;
        m_book := fold_left bstep (newly_stopped t (m_stopped m) p) (m_book m);
        m_spawned := m_spawned m;
@@ -91,8 +89,7 @@ Definition do_await (m : mstate) (k : nat) : mstate :=
        m_restarted := m_restarted m; m_tags := m_tags m |}
   end.
 
-Definition new_handle (m : mstate) (kind n : nat) : mstate :=
-  let t := m_tree m in
+Definition new_handle (t : tree) (m : mstate) (kind n : nat) : mstate :=
   (* done on return: certainly when the target is known to have stopped, certainly not when a
      closed gate keeps its subtree from finishing; otherwise it depends on the schedule (the
      target may run its whole cleanup between the push and the caller's look at the context) *)
@@ -112,54 +109,137 @@ Definition new_handle (m : mstate) (kind n : nat) : mstate :=
   upd_m m (m_handles m ++ [(kind, n)]) (add_all (closure t n) (m_stopping m)) (m_stopped m)
         (m_at_return m ++ [if Nat.eqb kind 3 then Some false else pred]) tags.
 
-Definition do_probe (m : mstate) (n : nat) : mstate :=
-  let t := m_tree m in
-  let spec_kids := filter (fun c => negb (memb c (m_stopped m))) (kids_of t n) in
-  {| m_tree := t; m_handles := m_handles m; m_stopping := m_stopping m; m_stopped := m_stopped m;
+(* the children of n that exist and have not stopped *)
+Definition spec_kids (t : tree) (m : mstate) (n : nat) : list nat :=
+  filter (fun c => memb c (m_born m) && negb (memb c (m_stopped m))) (kids_of t n).
+
+Definition do_probe (t : tree) (m : mstate) (n : nat) : mstate :=
+  let sk := spec_kids t m n in
+  {| m_born := m_born m; m_handles := m_handles m; m_stopping := m_stopping m; m_stopped := m_stopped m;
      m_closed := m_closed m; m_book := m_book m; m_spawned := m_spawned m; m_at_return := m_at_return m;
      m_probes := m_probes m ++ [(n, children (m_book m) n, parent (m_book m) n)];
-     m_spec_probes := m_spec_probes m ++ [(n, spec_kids, parent_in t n)];
+     m_spec_probes := m_spec_probes m ++ [(n, sk, parent_in t n)];
      m_restarted := m_restarted m;
-     m_tags := m_tags m ++ (if Nat.eqb (length spec_kids) (length (kids_of t n)) then [] else [7]) ++
-               (if memb n (m_restarted m) && negb (Nat.eqb (length spec_kids) 0) then [18] else []) |}.
+     m_tags := m_tags m ++
+               (if Nat.eqb (length sk) (length (filter (fun c => memb c (m_born m)) (kids_of t n))) then [] else [7]) ++
+               (if memb n (m_restarted m) && negb (Nat.eqb (length sk) 0) then [18] else []) |}.
 
 Definition do_spawn (m : mstate) (p c : nat) : mstate :=
-  {| m_tree := add_kid p c (m_tree m); m_handles := m_handles m; m_stopping := m_stopping m;
+  {| m_born := m_born m ++ [c]; m_handles := m_handles m; m_stopping := m_stopping m;
      m_stopped := m_stopped m; m_closed := m_closed m;
      m_book := bstep (m_book m) (BSpawnChild p c); m_spawned := bstep (m_spawned m) (BSpawnChild p c);
      m_at_return := m_at_return m; m_probes := m_probes m; m_spec_probes := m_spec_probes m;
      m_restarted := m_restarted m; m_tags := m_tags m ++ [19] |}.
 
-Definition mstep (m : mstate) (s : sstep) : mstate :=
+Definition mstep (t : tree) (m : mstate) (s : sstep) : mstate :=
   match s with
-  | SPoison n => new_handle m 0 n
-  | SStop n => new_handle m 1 n
-  | SSelf n => new_handle m 2 n
-  | SCrash n => new_handle m 3 n
-  | SAwait k => do_await m k
+  | SPoison n => new_handle t m 0 n
+  | SStop n => new_handle t m 1 n
+  | SSelf n => new_handle t m 2 n
+  | SCrash n => new_handle t m 3 n
+  | SAwait k => do_await t m k
   | SWaitGate g => upd_m m (m_handles m) (m_stopping m) (m_stopped m) (m_at_return m) [3]
   | SRelease g =>
-      {| m_tree := m_tree m; m_handles := m_handles m; m_stopping := m_stopping m; m_stopped := m_stopped m;
+      {| m_born := m_born m; m_handles := m_handles m; m_stopping := m_stopping m; m_stopped := m_stopped m;
          m_closed := set_del g (m_closed m); m_book := m_book m; m_spawned := m_spawned m;
          m_at_return := m_at_return m; m_probes := m_probes m; m_spec_probes := m_spec_probes m;
          m_restarted := m_restarted m; m_tags := m_tags m |}
   | SHold _ _ _ => m
-  | SProbe n => do_probe m n
+  | SProbe n => do_probe t m n
   | SSpawn p c => do_spawn m p c
   | SRestart n =>
-      {| m_tree := m_tree m; m_handles := m_handles m; m_stopping := m_stopping m; m_stopped := m_stopped m;
+      {| m_born := m_born m; m_handles := m_handles m; m_stopping := m_stopping m; m_stopped := m_stopped m;
          m_closed := m_closed m; m_book := m_book m; m_spawned := m_spawned m;
          m_at_return := m_at_return m; m_probes := m_probes m; m_spec_probes := m_spec_probes m;
          m_restarted := m_restarted m ++ [n];
-         m_tags := m_tags m ++ (15 :: if Nat.eqb (length (kids_of (m_tree m) n)) 0 then [] else [20]) |}
+         m_tags := m_tags m ++ (15 :: if Nat.eqb (length (filter (fun c => memb c (m_born m)) (kids_of t n))) 0
+                                      then [] else [20]) |}
   end.
 
-Definition m_init (t : tree) (gates : list nat) : mstate :=
-  {| m_tree := t; m_handles := []; m_stopping := []; m_stopped := []; m_closed := gates;
-     m_book := brun (spawn_ops t); m_spawned := brun (spawn_ops t); m_at_return := [];
+(* the ids that the scenario spawns on demand, and the spawns that build the scripted part of the tree *)
+Definition dyn_ids (steps : list sstep) : list nat :=
+  flat_map (fun s => match s with SSpawn _ c => [c] | _ => [] end) steps.
+Definition init_ops (t : tree) (dyn : list nat) : list bop :=
+  filter (fun o => match o with BSpawnChild _ c => negb (memb c dyn) | _ => true end) (spawn_ops t).
+
+Definition m_init (t : tree) (gates dyn : list nat) : mstate :=
+  {| m_born := filter (fun n => negb (memb n dyn)) (ids t); m_handles := []; m_stopping := []; m_stopped := [];
+     m_closed := gates;
+     m_book := brun (init_ops t dyn); m_spawned := brun (init_ops t dyn); m_at_return := [];
      m_probes := []; m_spec_probes := []; m_restarted := []; m_tags := [] |}.
 
-Definition mrun (c : case) : mstate := fold_left mstep (c_steps c) (m_init (c_tree c) (c_gates c)).
+Definition mrun_steps (t : tree) (gates : list nat) (steps all_steps : list sstep) : mstate :=
+  fold_left (mstep t) steps (m_init t gates (dyn_ids all_steps)).
+Definition mrun (c : case) : mstate := mrun_steps (c_tree c) (c_gates c) (c_steps c) (c_steps c).
+
+(** ** Well-formed scenarios: what the generators guarantee ([simulate] in
+    vlib/props/c08.py accepts exactly these).  A scenario never makes the harness
+    wait for something the property does not promise, never reads something
+    that depends on the schedule, and uses every id once. *)
+Fixpoint edges (t : tree) : list (nat * nat) :=
+  match t with Node i ks => flat_map (fun k => (i, root k) :: edges k) ks end.
+
+Definition count_of (n : nat) (l : list nat) : nat := length (filter (Nat.eqb n) l).
+Definition target_of (m : mstate) (k : nat) : option nat := option_map snd (nth_error (m_handles m) k).
+
+Definition wf_handle (t : tree) (maxr : nat) (m : mstate) (kind n : nat) : bool :=
+  memb n (m_born m) &&
+  (* everything below the target exists already (nothing is spawned under a stopping actor) *)
+  subsetb (closure t n) (m_born m) &&
+  (* Poison(self) and a crash need an actor that serves its inbox *)
+  (if Nat.leb 2 kind then negb (memb n (m_stopping m)) else true) &&
+  (* a crash is a panic with the restart budget used up *)
+  (if Nat.eqb kind 3 then Nat.eqb (count_of n (m_restarted m)) maxr else true).
+
+Definition wf_step (t : tree) (maxr : nat) (m : mstate) (waited : list nat) (s : sstep) : bool :=
+  match s with
+  | SPoison n => wf_handle t maxr m 0 n
+  | SStop n => wf_handle t maxr m 1 n
+  | SSelf n => wf_handle t maxr m 2 n
+  | SCrash n => wf_handle t maxr m 3 n
+  | SAwait k =>
+      match target_of m k with
+      | Some p => negb (blocked t (m_closed m) p)      (* no wait behind a closed gate *)
+      | None => false
+      end
+  | SWaitGate g =>
+      memb g (m_closed m) && memb g (m_stopping m) &&
+      negb (existsb (fun x => memb x (m_closed m)) (desc_of t g))
+  | SRelease g => memb g (m_closed m)
+  | SHold k c _ =>
+      match target_of m k with
+      | Some p => memb c (m_born m) && memb c (desc_of t p) &&
+                  existsb (fun g => memb g waited && memb g (m_closed m)) (closure t c)
+      | None => false
+      end
+  | SProbe n =>
+      memb n (m_born m) && negb (memb n (m_stopping m)) &&
+      forallb (fun c => negb (memb c (m_stopping m)) || memb c (m_stopped m) || blocked t (m_closed m) c)
+              (kids_of t n)
+  | SSpawn p c =>
+      memb p (m_born m) && negb (memb p (m_stopping m)) && negb (memb c (m_born m)) &&
+      memb c (ids t) && option_nat_eqb (parent_in t c) (Some p)
+  | SRestart n =>
+      memb n (m_born m) && negb (memb n (m_stopping m)) && Nat.ltb (count_of n (m_restarted m)) maxr
+  end.
+
+Fixpoint wf_steps (t : tree) (maxr : nat) (m : mstate) (waited : list nat) (steps : list sstep) : bool :=
+  match steps with
+  | [] => true
+  | s :: rest =>
+      wf_step t maxr m waited s &&
+      wf_steps t maxr (mstep t m s) (match s with SWaitGate g => g :: waited | _ => waited end) rest
+  end.
+
+Definition wfb (c : case) : bool :=
+  let t := c_tree c in let dyn := dyn_ids (c_steps c) in
+  nodupb (ids t) && nodupb dyn && subsetb dyn (ids t) && negb (memb (root t) dyn) &&
+  (* below a node spawned on demand everything is spawned on demand *)
+  forallb (fun e => negb (memb (fst e) dyn) || memb (snd e) dyn) (edges t) &&
+  (* gates: scripted nodes, on one root-to-leaf path *)
+  nodupb (c_gates c) && forallb (fun g => memb g (ids t) && negb (memb g dyn)) (c_gates c) &&
+  forallb (fun a => forallb (fun b => memb a (closure t b) || memb b (closure t a)) (c_gates c)) (c_gates c) &&
+  wf_steps t (c_maxr c) (m_init t (c_gates c) dyn) [] (c_steps c).
 
 (* everything that was told to stop: the union of the subtrees of the handles' targets *)
 Definition stop_set (t : tree) (m : mstate) : list nat :=
@@ -213,8 +293,9 @@ Definition sequential_target (c : case) : option nat :=
 
 (** ** Correspondence: the model's predictions against the observation *)
 Definition corr (c : case) : bool :=
-  let o := c_obs c in let m := mrun c in let t := m_tree m in
+  let o := c_obs c in let m := mrun c in let t := c_tree c in
   let stops := stop_set t m in
+  wfb c &&       (* the scenario is one the theorems speak about *)
   negb (o_hang o) && negb (o_gate_timeout o) &&
   (* handles: created as scripted, all done, done-on-return as predicted *)
   all2 (fun h oh => Nat.eqb (fst h) (oh_kind oh) && Nat.eqb (snd h) (oh_target oh) && oh_done oh &&
@@ -252,7 +333,7 @@ Definition corr (c : case) : bool :=
 
 (** ** The property's predicate, on the observation *)
 Definition oracle (c : case) : bool :=
-  let o := c_obs c in let m := mrun c in let t := m_tree m in
+  let o := c_obs c in let m := mrun c in let t := c_tree c in
   (* no hang: every stop context becomes done (and every gated Stopped handler was reached) *)
   negb (o_hang o) && negb (o_gate_timeout o) && forallb oh_done (o_handles o) &&
   (* every descendant has handled Stopped before the ancestor starts handling its own *)
@@ -289,7 +370,7 @@ Definition oracle (c : case) : bool :=
 Fixpoint dedup (l : list nat) : list nat :=
   match l with [] => [] | x :: l' => if memb x l' then dedup l' else x :: dedup l' end.
 Definition branches (c : case) : list nat :=
-  let t := m_tree (mrun c) in
+  let t := c_tree c in
   dedup ((if Nat.leb 3 (depth t) then [1] else []) ++ (if Nat.leb 3 (fanout t) then [2] else []) ++
          (if Nat.leb 4 (depth t) then [12] else []) ++ (if Nat.leb 4 (fanout t) then [13] else []) ++
          (if Nat.leb 2 (length (m_handles (mrun c))) then [14] else []) ++
@@ -330,22 +411,23 @@ Example report_d11 :
 Proof. vm_compute. reflexivity. Qed.
 
 (* a restarted actor keeps its children: child 10 spawned on demand under 1, 1 restarts, is probed and poisoned *)
+Definition T3d := Node 0 [Node 1 [Node 3 []; Node 10 []]; Node 2 []].
 Definition obs_restart (probe_kids : list nat) (evs : list oev) (alive : list nat) : obs :=
   {| o_events := evs;
-     o_xinfo := map (fun n => mk_x n (parent_in (add_kid 1 10 T3) n)) (xb_nodes evs);
+     o_xinfo := map (fun n => mk_x n (parent_in T3d n)) (xb_nodes evs);
      o_started := [(0, None); (1, Some 0); (1, Some 0); (2, Some 0); (3, Some 1); (10, Some 1)];
      o_handles := [{| oh_kind := 0; oh_target := 1; oh_at_return := false; oh_done := true; oh_alive := alive |}];
      o_probes := [{| op_n := 1; op_answered := true; op_kids := probe_kids; op_parent := Some 0 |}];
      o_hang := false; o_gate_timeout := false; o_rstops := 1 |}.
 Definition steps_restart := [SSpawn 1 10; SRestart 1; SProbe 1; SPoison 1].
 Example report_restart_ok :
-  report [ {| c_tree := T3; c_maxr := 1; c_gates := []; c_steps := steps_restart;
+  report [ {| c_tree := T3d; c_maxr := 1; c_gates := []; c_steps := steps_restart;
               c_obs := obs_restart [3; 10] [EXB 3; EXE 3; EXB 10; EXE 10; EXB 1; EXE 1; EDone 0] [] |} ]
   = ([], [], [[1; 19; 15; 20; 18; 16]]).
 Proof. vm_compute. reflexivity. Qed.
 (* what the seeded change shows: Children() empty after the restart, the children left running *)
 Example report_restart_children_lost :
-  report [ {| c_tree := T3; c_maxr := 1; c_gates := []; c_steps := steps_restart;
+  report [ {| c_tree := T3d; c_maxr := 1; c_gates := []; c_steps := steps_restart;
               c_obs := obs_restart [] [EXB 1; EXE 1; EDone 0] [3; 10] |} ]
   = ([0], [0], [[1; 19; 15; 20; 18; 16]]).
 Proof. vm_compute. reflexivity. Qed.
